@@ -267,12 +267,19 @@ _OPS1 = 'enqueue, process, processOne, takeEvent'
 _OPS2 = 'enqueue, processIf, processUntil, takeEvent, clearEvents'
 _OPS0 = 'enqueue, process, processOne, processIf, processUntil, takeEvent, peekEvent, clearEvents'
 _OPS3 = 'enqueue, takeEvent, peekEvent'
+_OPS4 = 'enqueue, process, processOne, processIf, clearEvents'
+_OPS5 = 'enqueue, process, processOne'
+_QTH = _QT.replace('EventQueue,', 'HeterEventQueue (two prototypes),')
 PROPS['C06'] = Prop(
     quick=[Run('q_threads_ops1_s2_p1', 'q_threads.cpp', {'MODE': 6, 'TT': 2, 'SS': 2, 'OPSET': 1}, preempt=1, covers=2, mt=True, bounds=_QT % (2, 2, _OPS1, '', 1, _SP_HOOKS)),
            Run('q_threads_ops2_s1_p2', 'q_threads.cpp', {'MODE': 6, 'TT': 2, 'SS': 1, 'OPSET': 2}, preempt=2, covers=2, optional_covers=(0,), mt=True, bounds=_QT % (2, 1, _OPS2, '', 2, _SP_HOOKS)),
            Run('q_threads_all_s1_auto_p1', 'q_threads.cpp', {'MODE': 6, 'TT': 2, 'SS': 1, 'OPSET': 0}, preempt=1, covers=2, mt=True, shared_points=True, native=(), bounds=_QT % (2, 1, _OPS0, '', 1, _SP_AUTO)),
-           Run('q_threads_peek_s2_auto_p1', 'q_threads.cpp', {'MODE': 6, 'TT': 2, 'SS': 2, 'OPSET': 3}, preempt=1, covers=2, optional_covers=(0,), mt=True, shared_points=True, native=(), bounds=_QT % (2, 2, _OPS3, '', 1, _SP_AUTO))],
-    thorough=[Run('q_threads_all_s2_p1', 'q_threads.cpp', {'MODE': 6, 'TT': 2, 'SS': 2, 'OPSET': 0}, preempt=1, covers=2, mt=True, budget_s=1700, bounds=_QT % (2, 2, _OPS0, '', 1, _SP_HOOKS)),
+           Run('q_threads_peek_s2_auto_p1', 'q_threads.cpp', {'MODE': 6, 'TT': 2, 'SS': 2, 'OPSET': 3}, preempt=1, covers=2, optional_covers=(0,), mt=True, shared_points=True, native=(), bounds=_QT % (2, 2, _OPS3, '', 1, _SP_AUTO)),
+           Run('hq_threads_s1_auto_p1', 'q_threads.cpp', {'MODE': 6, 'TT': 2, 'SS': 1, 'OPSET': 4, 'HETER': None}, preempt=1, covers=2, optional_covers=(0, 1), mt=True, shared_points=True, native=(), bounds=_QTH % (2, 1, _OPS4, '', 1, _SP_AUTO))],
+    thorough=[Run('hq_threads_s2_p1', 'q_threads.cpp', {'MODE': 6, 'TT': 2, 'SS': 2, 'OPSET': 4, 'HETER': None}, preempt=1, covers=2, optional_covers=(0, 1), mt=True, budget_s=1700, bounds=_QTH % (2, 2, _OPS4, '', 1, _SP_HOOKS)),
+              Run('hq_threads_s2_auto_p1', 'q_threads.cpp', {'MODE': 6, 'TT': 2, 'SS': 2, 'OPSET': 5, 'HETER': None}, preempt=1, covers=2, optional_covers=(0, 1), mt=True, shared_points=True, native=(), budget_s=1700, bounds=_QTH % (2, 2, _OPS5, '', 1, _SP_AUTO)),
+              Run('hq_threads_s1_auto_p1', 'q_threads.cpp', {'MODE': 6, 'TT': 2, 'SS': 1, 'OPSET': 4, 'HETER': None}, preempt=1, covers=2, optional_covers=(0, 1), mt=True, shared_points=True, native=(), bounds=_QTH % (2, 1, _OPS4, '', 1, _SP_AUTO)),
+              Run('q_threads_all_s2_p1', 'q_threads.cpp', {'MODE': 6, 'TT': 2, 'SS': 2, 'OPSET': 0}, preempt=1, covers=2, mt=True, budget_s=1700, bounds=_QT % (2, 2, _OPS0, '', 1, _SP_HOOKS)),
               Run('q_threads_ops1_s2_p2', 'q_threads.cpp', {'MODE': 6, 'TT': 2, 'SS': 2, 'OPSET': 1}, preempt=2, covers=2, mt=True, budget_s=1700, bounds=_QT % (2, 2, _OPS1, '', 2, _SP_HOOKS)),
               Run('q_threads_ops2_s2_p2', 'q_threads.cpp', {'MODE': 6, 'TT': 2, 'SS': 2, 'OPSET': 2}, preempt=2, covers=2, mt=True, budget_s=1700, bounds=_QT % (2, 2, _OPS2, '', 2, _SP_HOOKS)),
               Run('q_threads_t3_ops1_s1_p2', 'q_threads.cpp', {'MODE': 6, 'TT': 3, 'SS': 1, 'OPSET': 1}, preempt=2, covers=2, mt=True, budget_s=1700, bounds=_QT % (3, 1, _OPS1, '', 2, _SP_HOOKS)),
